@@ -37,9 +37,9 @@ fn with_prefix_pair(mut pool: Vec<content::ContentSpec>, flag: u8) -> Vec<conten
 /// occasionally replace one pool content by a big one (tens to hundreds of KiB, odd sizes around the
 /// 16 KiB / 64 KiB chunking boundaries readers like to use)
 fn with_big_tile(mut pool: Vec<content::ContentSpec>, pick_big: u8, size_sel: u8) -> Vec<content::ContentSpec> {
-    if pick_big % 5 == 0 && !pool.is_empty() {
-        let sizes = [16_385u32, 20_000, 32_769, 65_536, 65_537, 70_001, 131_073, 200_000, 300_001];
-        let i = usize::from(pick_big / 5) % pool.len();
+    if pick_big % 12 == 0 && !pool.is_empty() {
+        let sizes = [16_385u32, 20_000, 32_769, 65_536, 65_537, 70_001, 16_385, 65_537, 131_073, 200_000, 300_001, 20_000];
+        let i = usize::from(pick_big / 12) % pool.len();
         pool[i] = content::ContentSpec { kind: 0, len: sizes[usize::from(size_sel) % sizes.len()], seed: u32::from(size_sel) * 7 + 1 };
     }
     pool
@@ -84,6 +84,10 @@ pub fn layout(g: LGen) -> impl Strategy<Value = Layout> {
         .prop_map(move |mut l| {
             if g.big_runs && l.entries.len() > 3 && l.first_id % 7 == 0 {
                 l.entries[1].run = 100_000;
+            }
+            // a big tile stored once per entry would make archives of hundreds of megabytes
+            if l.data_mode % 4 == 2 && l.pool.iter().any(|c| c.len > 10_000) {
+                l.data_mode = 0;
             }
             l
         })
